@@ -252,6 +252,37 @@ def run(ctx: Ctx):
             ctx.ob("C08.d", f"{cname}._step:{key}:updated-selection", uses_new, sl.where,
                    f"{key}' is computed from the updated selection" if uses_new else f"{key}' is computed from the selection *before* this step (one step late)",
                    construct=f"{sl.fi.qualname}:{key}:stale-selection")
+        if cname == "MCPEnv":
+            # direction of the bookkeeping: `membership` shows the REMAINING sets (chosen enters negatively), and the item weights
+            # shown are those still uncovered: weights' = weights * (1 - covered) with covered an indicator (count > 0)
+            mv = sl.cell("membership")
+            pol = nf.polarity(mv) if mv is not None else {}
+            okm = pol.get("chosen") == {-1} and pol.get("membership") == {1}
+            ctx.ob("C08.d", "MCPEnv._step:membership:remaining-sets", okm, sl.where,
+                   f"membership' grows with membership and shrinks with the selection: signs {dict((k, sorted(v)) for k, v in pol.items() if k in ('chosen', 'membership'))}",
+                   construct=f"{sl.fi.qualname}:membership:direction")
+            wv = sl.cell("weights")
+            okw, whyw = False, "weights' is not weights * (1 - covered)"
+            if wv is not None:
+                pw = nf.poly(wv)
+                terms = list(pw.terms.items())
+                if len(terms) == 2:
+                    pure = [(m_, c_) for m_, c_ in terms if len(m_) == 1]
+                    mixed = [(m_, c_) for m_, c_ in terms if len(m_) == 2]
+                    if len(pure) == 1 and len(mixed) == 1 and pure[0][1] == 1 and mixed[0][1] == -1:
+                        a_w = nf.Poly.ATOMS[pure[0][0][0][0]]
+                        others = [nf.Poly.ATOMS[a_] for a_, _ in mixed[0][0] if nf.Poly.ATOMS[a_] is not a_w]
+                        is_w = nf.strip(a_w).op == "cell0" and nf.strip(a_w).args[1] == "weights"
+                        ind = False
+                        if len(others) == 1:
+                            x_ = nf.strip(others[0], True)
+                            while x_.op == "meth" and x_.args[1] in ("float", "to", "long", "int", "double"):
+                                x_ = nf.strip(x_.args[0], True)
+                            c_ = nf.cmpnf(x_)
+                            ind = c_ is not None and ((c_[1] == ">0" and c_[0].const_term() == 0) or (c_[1] == ">=0" and c_[0].const_term() == -1))
+                        okw = is_w and ind
+                        whyw = f"weights' = weights - weights * [count of chosen sets containing the item > 0]: weights cell {is_w}, indicator of a positive count {ind}"
+            ctx.ob("C08.d", "MCPEnv._step:weights:uncovered-only", okw, sl.where, whyw, construct=f"{sl.fi.qualname}:weights:formula")
         ctx.sample({"env": cname, "mask_literals": [str(l) for l in leaves][:4]})
 
 
